@@ -57,6 +57,12 @@ LEVEL_TEXT = ("PARTIAL by DESIGN §8's definition: (1) the barrier clause is pro
               "disabled (T=0), deadline_monotone, retire_after_deadline, never_arrives, noop_patch_does_not_arm, "
               "noop_cycle_leaves_consistent (fix 460c956) with noop_stall_regression_witness on the pre-fix feedback; "
               "listed_view_is_not_consistency_witness (a worker that trusts (re-)listed events breaks the barrier: seeded change C14c). "
+              "WHICH dequeued version counts as the own patch come back (Model/C07_Reached: the worker's one comparison as a parameter): "
+              "version_test_is_equality (kopf's `==` is the worker of all the theorems), barrier_view_sound_test_partial (the view barrier for EVERY "
+              "test that accepts no version older than the expected one: equality, 'or a numerically later one'; same guard as barrier_view_partial), "
+              "string_order_unsound_witness + string_order_breaks_barrier_witness (Python's `>` on the two strings — seeded change C07g — takes 99 for "
+              "100 come back: handlers on the older view one tick after the patch), string_order_is_numeric_same_width (why histories of ONE decimal "
+              "width cannot tell: there the string order is the numeric order). "
               "The model is hand-written; it is tied to the code by replaying every iteration of seeded whole-operator simulations "
               "(incl. re-listings/reconnects inside running handlers and between a patch and its echo); the wf hypotheses of the "
               "theorems are checked on the real traces.")
@@ -69,7 +75,9 @@ THEOREMS = [("Kopf.Props.C07", "Kopf.C07." + n) for n in [
     "held_for_good_regression_witness", "pending_holds_iff", "pending_comes_back_at_once", "carried_fulfilled_regression_witness",
     "disabled",
     "deadline_monotone", "retire_after_deadline", "never_arrives", "listed_view_is_not_consistency_witness",
-    "noop_patch_does_not_arm", "noop_cycle_leaves_consistent", "noop_stall_regression_witness"]]
+    "noop_patch_does_not_arm", "noop_cycle_leaves_consistent", "noop_stall_regression_witness",
+    "version_test_is_equality", "barrier_view_sound_test_partial", "string_order_unsound_witness",
+    "string_order_breaks_barrier_witness", "string_order_is_numeric_same_width"]]
 RULE = ("seeded whole-operator scenarios: T in {0, 0.25, 1, 5} s; request latency 1-64 ticks, response latency 0-48 ticks; echo delay of "
         "own writes in {0, < T, = T after the patch, = exactly the worker's deadline, > T}; foreign-event delay and jitter; 0-5 foreign "
         "edits before and 0-5 after each chosen own write (reactive offsets), slips right before a PATCH (422 -> remaining patch); create/"
@@ -83,7 +91,11 @@ RULE = ("seeded whole-operator scenarios: T in {0, 0.25, 1, 5} s; request latenc
         "un-paused before or after the deadline; 30 % of the plans pause again 1-40 ticks after the un-pausing (flapping); handler shapes: create/update/delete plus (20 % each) resume and field handlers; 12 % of the histories start from an object "
         "already handled by a previous incarnation (last-handled annotation: RESUME causes, resuming handlers with retries); 30 %: a daemon or "
         "timer behind a filter (spec.x == v, v mostly the value of a reactive foreign edit: spawned by a held-back iteration); deletions with "
-        "foreign edits of the terminating object around the framework's writes, and early deletions (inside the window of edits). One case = one "
+        "foreign edits of the terminating object around the framework's writes, and early deletions (inside the window of edits); the server's NUMBERING of its versions "
+        "(8/9 of the histories; 1/9 keep the fake server's 101, 102, …): the counter starts shortly below a power of ten (widths 1-19) or another round number d·10^k / at a random "
+        "number of 1-18 digits / around 2^31, 2^53, 10^18, 2^62, leaves gaps (cyclic strides 1-90: other objects' versions), or leaps to the end of its "
+        "decimal width right before the n-th PATCH of the operator — after a slipped-in foreign write — so that the own patch's version is one digit "
+        "longer than the stale views around it (measured: rv_shape, rv_widths, rv_magnitude). One case = one "
         "worker iteration; distinct & non-trivial = distinct abstracted (deadline set?, reset by arrival?, slept/woken/timed-out, "
         "held/entered, pending patch, pressure, patched?) tuples where a deadline was set or a patch was made")
 TRUSTED = ["harness/sim (virtual-time loop, fake API server, scripted handlers) + harness/props/sim_c07.py (per-event echo delay, "
@@ -105,6 +117,8 @@ ASSUMPTIONS = ["the barrier theorems are about PATCHes issued by the object's wo
                "whether carried transformation functions still yield an operation on the view at hand is classified by the harness from the scripted "
                "functions' semantics (they set one label; the last one wins) for the histograms only: the code decides it when patching (C08)",
                "watch-stream breaks, reconnects and re-listings (410) are generated; operator restarts are not (a fresh operator re-lists the current state; C14/C19's subject)",
+               "resourceVersions are decimal numbers that grow with every write of the server (what etcd-backed servers hand out; the oracle orders "
+               "views by the server's own storing order, not by the digits); versions that are not numbers at all are not generated",
                "times are multiples of 1/64 s; a timed-out sleep ends exactly at its deadline under virtual time (the theorems allow any lateness)",
                "GONE causes have no handlers (C05); `handlers` in the model excludes them",
                "the model's inputs of one iteration (patch emptiness, pressure, pause) are sampled when the last low-level stage "
@@ -343,7 +357,40 @@ def gen_scenario(rng: Any, i: int) -> dict:
           "end": t_quiet + 2.0}
     if rng.random() < 0.2:
         sc["status_subresource"] = True
+    # (drawn last within a scenario)
+    rvp = gen_rv_plan(rng)
+    if rvp is not None:
+        sc["c07"]["rv"] = rvp
     return sc
+
+
+def gen_rv_plan(rng: Any) -> dict | None:
+    """How the server numbers its versions. To a client they are opaque strings: the only thing the worker may do with the
+    version of its own patch is to recognise it when it comes back. The fake API's own numbering (101, 102, …) keeps ONE
+    decimal width, consecutive numbers and small magnitudes for a whole history; a real server's counter is shared by all
+    objects of the cluster (gaps), grows through every power of ten, and is a 64-bit number. Classes: the counter starts
+    shortly below a power of ten (widths 1-19: the history crosses it somewhere) or below another round number d·10^k; it leaps to the end of its width right
+    before the n-th PATCH of the operator (the operator's own write gets the first version that is one digit longer than a
+    foreign write made just before it); magnitudes around 2^31, 2^53, 10^18 (int/float conversions); gaps between versions."""
+    mode = rng.choice(["default", "near", "near", "near", "jump", "jump", "jump", "big", "random"])
+    if mode == "default":
+        return None
+    strides = rng.choice([[1], [1], [1], [1, 1, 2], [1, 3, 1, 7], [2], [11, 1, 1], [1, 1, 1, 90]])
+    k = rng.choice([1, 2, 2, 3, 3, 4, 5, 6, 8, 9, 12, 16, 18])
+    plan: dict = {"strides": strides, "mode": mode}
+    if mode == "near":
+        # (below a power of ten: the width grows; below another round number: a carry runs through all the lower digits)
+        plan["start"] = max(1, rng.choice([1, 1, 1, 2, 7]) * 10 ** k
+                            - rng.randrange(3, 3 + rng.choice([6, 12, 25, 40]) * max(1, sum(strides) // len(strides))))
+    elif mode == "big":
+        plan["start"] = rng.choice([2 ** 31, 2 ** 53, 2 ** 53, 10 ** 18, 2 ** 62]) + rng.randrange(-20, 60)
+    elif mode == "random":
+        plan["start"] = rng.randrange(10 ** (k - 1), 10 ** k)
+    else:
+        if rng.random() < 0.6:
+            plan["start"] = rng.choice([1, 5, 40, 470, 5000, 123456, 10 ** 8 + 7, 2 ** 53 + 11, 10 ** 18 + 3])
+        plan["jumps"] = [{"nth": n} for n in sorted(set(rng.choice([1, 1, 2, 2, 3, 3, 4, 5, 7]) for _ in range(rng.choice([1, 1, 2, 3]))))]
+    return plan
 
 
 # ---------------------------------------------------------------------------------------------
@@ -393,6 +440,19 @@ def oracle(ctx: Ctx, sc: dict, tr: dict) -> None:
     t_end = min([m["t"] for m in tr["marks"] if m.get("what") == "end"] or [float("inf")])
     for uid, o in _split(tr).items():
         cycles = o["cycles"]
+        # "A view OLDER than that patch": by the server's own order of the versions it stored for this object (to a client
+        # a resourceVersion is an opaque string: neither its digits nor its length say anything by themselves; the fake
+        # server's counter is a number, which is the fallback for versions it has no record of).
+        order: dict[str, int] = {}
+        for vs in (tr.get("history") or {}).values():
+            for pos_, v in enumerate(vs):
+                if v.get("uid") == uid:
+                    order.setdefault(str(v.get("rv")), pos_)
+
+        def older(a: Any, b: Any) -> bool:
+            ia, ib = order.get(str(a)), order.get(str(b))
+            return ia < ib if ia is not None and ib is not None else int(a) < int(b)
+
         # Every change-handler call against the worker's own PATCHes that were applied by then. (A PATCH of the
         # same iteration comes after its handlers and takes >= 1 tick of latency, so `t_applied <= t` selects
         # exactly the patches of earlier iterations.)
@@ -402,7 +462,13 @@ def oracle(ctx: Ctx, sc: dict, tr: dict) -> None:
             if earlier:
                 last = earlier[-1]
                 pv, tp = int(last["applied_rv"]), float(last["t_applied"])
-                stale = view < pv
+                stale = older(call["rv"], last["applied_rv"])
+                if stale:
+                    sv, sp = str(call["rv"]), str(last["applied_rv"])
+                    ctx.count("rv_shape", "stale view vs own patch: " + (
+                        "the patch's version is longer (a power of ten in between)" if len(sp) > len(sv) else
+                        "same width, consecutive" if pv - view == 1 else "same width, a gap in between")
+                        + (", above 2^53" if pv > 2 ** 53 else ""))
                 ctx.count("view", "older-than-own-patch (timeout elapsed)" if stale and call["t"] >= tp + T else
                           "older-than-own-patch BEFORE timeout" if stale else "not-older")
                 if stale and call["t"] < tp + T:
@@ -418,7 +484,7 @@ def oracle(ctx: Ctx, sc: dict, tr: dict) -> None:
             bg = [p for p in o["background"] if float(p["t_applied"]) <= call["t"]]
             if bg:
                 lastb = bg[-1]
-                if view < int(lastb["applied_rv"]) and call["t"] < float(lastb["t_applied"]) + T:
+                if older(call["rv"], lastb["applied_rv"]) and call["t"] < float(lastb["t_applied"]) + T:
                     ctx.count("background_patch", "change handler on a view older than a daemon/timer patch before the timeout (C07-F1)")
                     ctx.oracle_fail(
                         f"change handler {call['id']} ran at t={call['t']} on resourceVersion {view}, older than the PATCH result "
@@ -869,6 +935,13 @@ def digest(sc: dict, tr: dict, tie: bool = True) -> dict:
     rec.count("T", sc["settings"]["persistence.consistency_timeout"])
     rec.count("echo_class", c7.get("echo_class", "corpus"))
     rec.count("foreign_class", c7.get("foreign_class", "corpus"))
+    rvp = c7.get("rv") or {}
+    rec.count("rv_plan", (rvp.get("mode") or ("corpus plan" if rvp else "the fake server's default (101, 102, …)"))
+              + (", gaps" if any(g != 1 for g in rvp.get("strides", [1])) else ""))
+    rvs = [str(v["rv"]) for vs in (tr.get("history") or {}).values() for v in vs]
+    if rvs:
+        rec.count("rv_widths", f"{min(map(len, rvs))}-{max(map(len, rvs))} digits" if len(set(map(len, rvs))) > 1 else "one width")
+        rec.count("rv_magnitude", "above 2^53" if any(int(r) > 2 ** 53 for r in rvs) else "above 2^31" if any(int(r) > 2 ** 31 for r in rvs) else "small")
     rec.count("latency_ticks", c7["latency"])
     rec.count("resp_latency_ticks", c7["resp_latency"])
     rec.count("foreign_edits", sum(1 for m in tr["marks"] if m.get("what") == "op" and m["op"][0] == "edit"))
